@@ -43,7 +43,7 @@ PROBES = ["negative-unsorted-index-on-bonded", "two-dimensional-index", "negativ
 # a dtype that can hold them whatever narrower arrays were assigned in between
 STR_CATS = {"chain_id": ["A", "B", "C", "WXYZ"], "ins_code": ["", "A"], "res_name": ["ALA", "GLY", "HOH", "ABCDE"],
             "atom_name": ["CA", "N", "O", "CB", "HG1234"], "element": ["C", "N", "O", "CL"], "lbl": ["xxx", "yyy", "zzz"]}
-EXTRA = {"uid": "int", "q": "float", "flag": "bool", "lbl": "str", "b32": "float32"}
+EXTRA = {"uid": "int", "q": "float", "flag": "bool", "lbl": "str", "b32": "float32", "tag": "obj"}
 MANDATORY = ["chain_id", "res_id", "ins_code", "res_name", "hetero", "atom_name", "element"]
 
 
@@ -234,11 +234,14 @@ def gen_value(rng, name, typ, wide=False):
     if typ == "float32":
         # single precision annotation (e.g. a B-factor), unknown values as NaN
         return rng.choice([0.0, 0.5, -1.25, 3.0, 100.0, float("nan"), float("nan")])
+    if typ == "obj":
+        # an annotation of dtype object ("extra annotations of any dtype"): arbitrary Python values per atom
+        return rng.choice(["label", "x y", "", 3, -1, 0])
     return rng.random() < 0.5
 
 
 CAT_TYPES = {"chain_id": "str", "res_id": "int", "ins_code": "str", "res_name": "str", "hetero": "bool", "atom_name": "str",
-             "element": "str", "uid": "int", "q": "float", "flag": "bool", "lbl": "str", "b32": "float32"}
+             "element": "str", "uid": "int", "q": "float", "flag": "bool", "lbl": "str", "b32": "float32", "tag": "obj"}
 
 
 def gen_coord(rng, shape):
@@ -380,6 +383,8 @@ def m_apply(ms, op):
         return {op["dst"]: M("stack", {c: list(v) for c, v in src.ann.items()}, coord, op["box"], src.bonds)}, None
     if name == "rebuild":
         src = ms[op["src"]]
+        if src is not None and "tag" in src.ann:
+            return None  # array() infers one dtype per category from the first atom: not defined for mixed object values
         if src is None or src.kind != "array" or src.n == 0:
             return None
         if "lbl" in src.ann and any(len(v) < 3 for v in src.ann["lbl"]):
@@ -460,7 +465,7 @@ def m_apply(ms, op):
         what, cat = op["what"], op["cat"]
         if what == "add":
             if cat not in out.ann:
-                out.ann[cat] = [{"int": 0, "float": 0.0, "float32": 0.0, "bool": False, "str": ""}[CAT_TYPES[cat]]] * m.n
+                out.ann[cat] = [{"int": 0, "float": 0.0, "float32": 0.0, "bool": False, "str": "", "obj": 0}[CAT_TYPES[cat]]] * m.n
             elif op.get("dt") == "incompatible":
                 raise Reject(("ValueError",))
         elif what in ("set", "attr"):
@@ -700,7 +705,7 @@ def generate(rng):
             m = rng.choice([0, 1, 2, 3, 4]) if kind == "stack" else None
             extras = rng.sample(extras_pool, rng.randint(0, 4))
             data = gen_container(rng, kind, n, m, extras, rng.random() < 0.6, rng.random() < 0.5)
-            op = {"op": "new", "dst": rng.randrange(nreg), "data": m_to_json(data), "via": rng.choice(["direct", "atoms"]),
+            op = {"op": "new", "dst": rng.randrange(nreg), "data": m_to_json(data), "via": rng.choice(["direct", "atoms"]) if "tag" not in extras else "direct",
                   "as": rng.choice(["list", "list", "tuple", "generator", "iter"])}
         else:
             a = rng.choice(lv)
@@ -770,8 +775,8 @@ def generate(rng):
                     # add_annotation() on an existing category: documented to choose a dtype that is also able to
                     # represent the old values (wider: converted; narrower: kept; neither: ValueError)
                     op["dt"] = rng.choice(["wider", "wider", "narrower", "incompatible"])
-                    if op["dt"] == "incompatible" and CAT_TYPES[cat] == "str":
-                        op["dt"] = "wider"
+                    if op["dt"] == "incompatible" and CAT_TYPES[cat] in ("str", "obj"):
+                        op["dt"] = "wider"  # every dtype can be cast to object / wide strings: nothing is incompatible
                 if what in ("set", "attr"):
                     nn = m.n if not (faulty and rng.random() < 0.25) else m.n + rng.choice([1, 2])
                     op["values"] = [gen_value(rng, cat, CAT_TYPES[cat], wide=True) for _ in range(nn)]
@@ -845,6 +850,10 @@ def np_annot(cat, values):
         width = {"chain_id": 4, "ins_code": 1, "res_name": 5, "atom_name": 6, "element": 2, "lbl": 3}[cat]
         width = max([width] + [len(v) for v in values])
         return np.array(values, dtype=f"U{width}")
+    if t == "obj":
+        a = np.empty(len(values), dtype=object)
+        a[:] = list(values)
+        return a
     return np.array(values, dtype={"int": int, "float": float, "float32": np.float32, "bool": bool}[t])
 
 
@@ -855,6 +864,8 @@ def natural_annot(cat, values, exists):
     if not exists or len(values) == 0:
         return np_annot(cat, values)
     t = CAT_TYPES.get(cat, "int")
+    if t == "obj":
+        return np_annot(cat, values)  # numpy would guess a string dtype for mixed values; an object array is passed
     if t in ("float", "float32") and all(float(v).is_integer() for v in values):
         return np.array([int(v) for v in values])
     return np.array(values)
@@ -1192,14 +1203,14 @@ class Sim:
                     if t == "str":
                         dtype = np_annot(cat, [""]).dtype
                     else:
-                        dtype = {"int": int, "float": float, "float32": np.float32, "bool": bool}[t]
+                        dtype = {"int": int, "float": float, "float32": np.float32, "bool": bool, "obj": object}[t]
                     if op.get("dt") and cat in obj.get_annotation_categories():
                         if op["dt"] == "wider":
-                            dtype = {"int": np.float64, "float": np.float64, "float32": np.float64, "bool": np.int64}.get(t)
+                            dtype = {"int": np.float64, "float": np.float64, "float32": np.float64, "bool": np.int64, "obj": object}.get(t)
                             if t == "str":
                                 dtype = np.dtype(f"U{obj.get_annotation(cat).dtype.itemsize // 4 + 6}")
                         elif op["dt"] == "narrower":
-                            dtype = {"int": np.int8, "float": np.float32, "float32": np.float16, "bool": bool, "str": np.dtype("U1")}[t]
+                            dtype = {"int": np.int8, "float": np.float32, "float32": np.float16, "bool": bool, "str": np.dtype("U1"), "obj": np.int8}[t]
                         else:
                             dtype = np.dtype("U1")
                     obj.add_annotation(cat, dtype=dtype)
